@@ -1,0 +1,14 @@
+//go:build verif
+
+package circuitbreaker
+
+import (
+	"github.com/failsafe-go/failsafe-go"
+	"github.com/failsafe-go/failsafe-go/common"
+)
+
+// lemmaApply drives the real executor template (policy.BaseExecutor.Apply) with the real breaker executor, so that
+// the verifier resolves PreExecute/OnSuccess/OnFailure through the method set of *executor (contract in verif_contracts.go).
+func lemmaApply[R any](e *executor[R], innerFn func(failsafe.Execution[R]) *common.PolicyResult[R], exec failsafe.Execution[R]) *common.PolicyResult[R] {
+	return e.Apply(innerFn)(exec)
+}
